@@ -713,6 +713,8 @@ def build_negative(tier, seed):
                  "        %s" % (("self.0 as %s" % tout) if "::" not in tout else ("%s::new(self.0 as u8)" % tout)), "    }", "}",
                  "/// witness", "#[bitfield(u%d)]" % base, "pub struct W {", "    /// x", "    #[bits(%d..=%d, rw)]" % (lo, lo + wbits - 1), "    x: Odd,", "    /// low", "    #[bit(0, rw)]", "    low: bool,", "}"]
         negt.add(raw_item(mod, "W", lines, "C09", "width: hand-written type taking %s but returning %s on %d bits, access `rw`" % (tin, tout, wbits), extra={"imports": ["u%d" % base] if base not in (8, 16, 32, 64, 128) else []}))
+        # (the field ends at the top bit of an arbitrary-int base: accepted, its setter would write above bit N-1)
+        negt.add(raw_item(mod + "b", "W", lines, "C11", "hidden state: hand-written type returning %s on the top %d bits of u%d" % (tout, wbits, base), extra={"imports": ["u%d" % base] if base not in (8, 16, 32, 64, 128) else []}))
     # `debug` needs a getter for every field: write-only / unspecified / array fields must not get one
     for i, (clause, prop, acc, arr) in enumerate([
             ("debug with a write-only field must not compile (w fields have no getter)", "C17", "w", None),
